@@ -948,6 +948,33 @@ def run_harness(harness, tier="quick", seed=0, replay=None, verbose=True):
     log(f"[{pid}] timing: explore {t_explore:.0f}s, solve {t_solve:.0f}s, translator validation {time.time() - t_tv0:.0f}s, since start {time.time() - t_start:.0f}s")
     if tv["mismatches"]:
         problems.append(f"translator validation mismatches: {tv['mismatches'][:3]}")
+    # a concrete failure of a claim the solver could NOT decide (unknown / sat only on an abstracted query)
+    # is a counter-example found by sampling: confirm it by the ordinary replay and report it
+    for (cname, oname, info) in list(tv["concrete_failures"]):
+        cand = [(r, o, res) for (r, o, res) in inconclusive if o.case == cname and o.name == oname and o.path_id == info.get("_path")]
+        if not cand or not info.get("_vals"):
+            continue
+        r, o, res = cand[0]
+        ok, info2 = replay_obligation(harness, r, o, info["_vals"], seed)
+        if not ok:
+            continue
+        rec = dict(property=pid, case=o.case, obligation=o.name, kind=o.kind, choices=o.choices, valuation=info["_vals"],
+                   observed=info2, found_by="concrete sampling of an obligation the solver left undecided", note=o.note)
+        h = hashlib.sha256(json.dumps([o.case, o.name], sort_keys=True).encode()).hexdigest()[:10]
+        path = os.path.join(VERIF, "replays", f"{pid}-{h}.json")
+        with open(path, "w") as f:
+            json.dump(rec, f, indent=1, default=str)
+        k = match_known(findings, pid, o.case, o.name)
+        if k is not None:
+            known_hits.append((k, o, path))
+        else:
+            violations.append((o, path, info2))
+        inconclusive = [x for x in inconclusive if x[1] is not o]
+        tv["concrete_failures"].remove((cname, oname, info))
+        sat_obls.append((r, o))
+    for (_, _, info) in tv["concrete_failures"]:
+        for k_ in ("_vals", "_choices", "_path"):
+            info.pop(k_, None)
     # a concrete failure of a claim that the solver discharged = model/real-code disagreement
     viol_cases = {o.case for (_, o) in sat_obls}
     for (cname, oname, info) in tv["concrete_failures"]:
@@ -1141,7 +1168,7 @@ def translator_validation(harness, runs, seed, n=3, log=print):
                         out["mismatches"].append((r.case.name, o.name, "claim not reached concretely" + why))
                     continue
                 if cres["ok"] is False:
-                    out["concrete_failures"].append((r.case.name, o.name, dict(vals=None, err=cres["err"])))
+                    out["concrete_failures"].append((r.case.name, o.name, dict(vals=None, err=cres["err"], _vals=dict(vals_used), _choices=dict(Hc.choices), _path=q.pid)))
                 if o.kind == "eq" and cres.get("lhs") is None:
                     continue
                 if o.kind == "eq":
